@@ -273,7 +273,14 @@ def check_property(prop, tier, a):
                         'path': o['witness'].get('path'), 'native_replay': rep,
                         'smt2': o['witness'].get('smt', '')})
             structural_global = o['contract'] == 'structural' and any(k in o['oid'] for k in ('::ownership:memo:', '::ownership:global:', '::registry-write:', '::ownership:attr:self.', '::ownership:mut:self.', '::ownership:item:self.', '::per-execution-allocation:', '::instance-state:'))
-            if rep.get('status') != 'reproduced' and baseline.get(o['oid']) != 'proved' and not structural_global:
+            # a write to a declared field outside the contract's modifies clause: on the baseline the frame of that contract was
+            # discharged as one summary obligation (no per-field obligation exists while nothing is written), so the per-field
+            # failure is a regression of that summary.  (Writes to attributes the contract's shape does not know are not
+            # covered by this: they stay undecided unless they replay.)
+            when = 'exceptional' if '(exceptional)' in o['label'] else 'normal'
+            frame_regression = (o['kind'] == 'frame' and o['label'].endswith(f'unchanged ({when})') and ' of objects outside ' not in o['label']
+                                and baseline.get(f"{o['contract']}::frame:fields outside modifies are checked ({when})") == 'proved')
+            if rep.get('status') != 'reproduced' and baseline.get(o['oid']) != 'proved' and not structural_global and not frame_regression:
                 # a countermodel that does not replay, on an obligation that never verified on the committed
                 # baseline: undecided (DESIGN 2.1 step 6), not a violation
                 demoted.append({'contract': o['contract'], 'why': f"sat-unconfirmed on non-baseline obligation {o['kind']}:{o['label']}"})
